@@ -1,6 +1,7 @@
 (* C06 - threshold shares reconstruct the unique group signature for any >= t+1 signers. *)
 From Coq Require Import ZArith NArith List Bool Field.
 From V Require Import Lib.FermatZ Prim.Bls12 Model.Threshold Proofs.ThresholdProofs Proofs.LagrangeField Proofs.LagrangeModR.
+From V Require Proofs.Primes.
 Import ListNotations.
 Open Scope Z_scope.
 
@@ -39,14 +40,15 @@ Print Assumptions C06_interpolation_at_zero_any_field.
 (* THE reconstruction statement at the level of scalars: for every dealer polynomial of degree at
    most t (coefficients a, reduced mod r) and every list of t+1 or more DISTINCT signer indices in
    ANY order, the coefficients computed by the C routine combine the shares P(x_i) into P(0).
-   In G1 this is: sum_i lambda_i * [P(x_i)]H = [P(0)]H, the group signature.  r prime is explicit. *)
+   In G1 this is: sum_i lambda_i * [P(x_i)]H = [P(0)]H, the group signature.  Uses that r is prime
+   (Proofs/Primes.v: a Pocklington certificate checked by the kernel). *)
 Theorem C06_reconstruct_any_subset_any_order :
-  primeZ rZ -> forall (idx a : list Z),
+  forall (idx a : list Z),
     NoDup idx -> inrange idx -> (length a <= length idx)%nat -> Forall (fun c => 0 <= c < rZ) a -> a <> [] ->
     fold_left (fun acc i => (acc + lagrange_coeff idx i * poly_eval a (nth i idx 0)) mod rZ)
               (seq 0 (length idx)) 0
     = nth 0 a 0.
-Proof. exact code_coefficients_interpolate. Qed.
+Proof. exact (code_coefficients_interpolate Primes.bls_r_prime). Qed.
 Print Assumptions C06_reconstruct_any_subset_any_order.
 
 (* non-vacuity: concrete indices straddling the 8-per-limb batches meet the hypotheses, and the routine
